@@ -375,34 +375,37 @@ Init ==
     /\ sess = NoSess
     /\ hist = << [a |-> "Init", args |-> cfg, exp |-> [x |-> 0]] >>
 
-\* the input choices within a remaining deviation budget, computed once
-DevCap == IF MaxDev > 9 THEN 9 ELSE MaxDev
-PageChoices ==
-    [k \in 0..DevCap |->
-        {c \in [page : Pages, accept : Accepts, auth : AuthClasses, rt : RtClasses, q : QClasses] :
-            k + Dev(c.page # "landing") + Dev(c.accept # "html") + Dev(c.auth # "none")
-            + Dev(c.rt # "none") + Dev(c.q # "none") <= MaxDev}]
-CallbackChoices ==
-    [k \in 0..DevCap |->
-        {c \in [mut : CookieMuts, sc : StateClasses, form : Forms, age : Ages] :
-            k + Dev(c.mut # "valid") + Dev(c.sc # "equal") + Dev(c.form # "code")
-            + Dev(c.age # 0) <= MaxDev}]
-PackChoices ==
-    [k \in 0..DevCap |->
-        {c \in [fc : FieldClasses, mut : DirectMuts, age : DirectAges] :
-            k + Dev(c.fc # "typical") + Dev(c.mut # "valid") + Dev(c.age # 0) <= MaxDev}]
-Capped(k) == IF k > DevCap THEN DevCap ELSE k
+\* Input choices are enumerated dimension by dimension with the remaining
+\* deviation budget threaded through, so that thinning prunes early.
+Left(b, isDev) == b - Dev(isDev)
+
+NextPage(b0) ==
+    \E page \in Pages : LET b1 == Left(b0, page # "landing") IN b1 >= 0 /\
+    \E accept \in Accepts : LET b2 == Left(b1, accept # "html") IN b2 >= 0 /\
+    \E auth \in AuthClasses : LET b3 == Left(b2, auth # "none") IN b3 >= 0 /\
+    \E rt \in RtClasses : LET b4 == Left(b3, rt # "none") IN b4 >= 0 /\
+    \E q \in QClasses : Left(b4, q # "none") >= 0 /\ PageRequest(page, accept, auth, rt, q)
+
+NextCallback(b0) ==
+    \E mut \in CookieMuts : LET b1 == Left(b0, mut # "valid") IN b1 >= 0 /\
+    \E sc \in StateClasses : LET b2 == Left(b1, sc # "equal") IN b2 >= 0 /\
+    \E form \in Forms : LET b3 == Left(b2, form # "code") IN b3 >= 0 /\
+    \E age \in Ages : Left(b3, age # 0) >= 0 /\ Callback(mut, sc, form, age)
+
+NextPack(b0) ==
+    \E fc \in FieldClasses : LET b1 == Left(b0, fc # "typical") IN b1 >= 0 /\
+    \E mut \in DirectMuts : LET b2 == Left(b1, mut # "valid") IN b2 >= 0 /\
+    \E age \in DirectAges : Left(b2, age # 0) >= 0 /\ PackUnpack(fc, mut, age)
 
 Next ==
     \/ /\ phase = "idle"
-       /\ \/ \E c \in PageChoices[Capped(CfgDev(cfg))] : PageRequest(c.page, c.accept, c.auth, c.rt, c.q)
+       /\ \/ NextPage(MaxDev - CfgDev(cfg))
           \/ \E auth \in AuthClasses : Logout(auth)
-          \/ \E c \in PackChoices[Capped(CfgDev(cfg))] : PackUnpack(c.fc, c.mut, c.age)
+          \/ NextPack(MaxDev - CfgDev(cfg))
           \/ \E rt \in RtClasses : CheckReturnTo(rt)
           \/ \E oc \in OrigClasses : CheckOriginal(oc)
     \/ /\ phase = "redirected"
-       /\ \E c \in CallbackChoices[Capped(sess.dev)] :
-             Callback(c.mut, c.sc, c.form, c.age)
+       /\ NextCallback(MaxDev - sess.dev)
 
 Spec == Init /\ [][Next]_vars
 
